@@ -142,6 +142,7 @@ inductive Pc where
   | sbWait (q : Nat) (j : Nat)            -- release ready and wait on the condvar (atomic)
   | sbWaiting (q : Nat) (j : Nat)         -- blocked until notified, then re-acquires ready
   | sbDone (q : Nat) (j : Nat)            -- release ready at the end
+  | sbDropCv (q : Nat)                    -- mem::drop(wakeup)
   | sbPrune (q : Nat)
   -- run_one_job_now(q) -> k
   | rjDequeue (q : Nat) (k : Pc)
@@ -244,6 +245,7 @@ inductive Obs where
   | notifyAll (a : Nat)
   | taskWake (a : Nat)           -- the block_on waker of task `a` is fired
   | gateSend (g : Nat)           -- harness: one oneshot send of gate g
+  | wakeupDropped                -- a sync caller drops its condition variable
   | beg (op : Nat) | end_ (op : Nat)
   | ret (op : Nat) (r : Nat)
   deriving DecidableEq, Repr, Hashable, Inhabited
